@@ -349,6 +349,9 @@ def kernel_task(shape, op):
                     outs.append([sum_dim(NormalFamily._nll(x, loc, sc), but_dim=0)])
                 elif op == "sqr_wsum":
                     outs.append(list((x**2).wsum()))
+                elif op in ("rmse", "rmse_per_ft"):
+                    mdl = st.sym("mdl", shape, register=(val is v))
+                    outs.append([getattr(FullGaussianObservationModel, "compute_" + op)(y=x, model=mdl)])
             return outs
 
         for c, res in st.explore(run, "F"):
@@ -370,6 +373,9 @@ def run(val):
     if op == 'wsum_dim_last': return list(wsum_dim(x, but_dim=-1))
     if op == 'weighted_value': return [x.weighted_value]
     if op == 'nll_sum': return [sum_dim(NormalFamily._nll(x, torch.zeros_like(val), torch.tensor(1.0)), but_dim=0)]
+    if op.startswith('rmse'):
+        from leaspy.models.obs_models import FullGaussianObservationModel
+        return [getattr(FullGaussianObservationModel, 'compute_' + op)(y=x, model=torch.zeros_like(val))]
     return list((x ** 2).wsum())
 clean = torch.where(w, v, torch.zeros_like(v))
 bad = []
@@ -398,7 +404,7 @@ _old_tasks = tasks
 
 def tasks(tier, seed=0):
     ts = _old_tasks(tier, seed)
-    for op in ("wsum", "sum_dim0", "wsum_dim_last", "weighted_value", "nll_sum", "sqr_wsum"):
+    for op in ("wsum", "sum_dim0", "wsum_dim_last", "weighted_value", "nll_sum", "sqr_wsum", "rmse", "rmse_per_ft"):
         ts.append(("kernel_task", dict(shape=(2, 2), op=op)))
         if tier == "thorough":
             ts.append(("kernel_task", dict(shape=(2, 2, 2), op=op)))
